@@ -40,10 +40,10 @@ U = [0.0, 1e-12, 1e-6, 0.1, 0.16, 0.25, 0.5, 0.75, 0.84, 0.9, 1 - 1e-6, 1.0]
 XS = [-12.0, -3.0, -1.0, 0.0, 0.5, 2.0]
 
 BOUND_VALUES = [-12.0, -3.0, -1.0, 0.0, 0.5, 2.0, 1e3]
-LIN_BOUND_VALUES = [1e-12, 1e-3, 0.5, 2.0, 1e3]
+LIN_BOUND_VALUES = [1e-300, 1e-12, 1e-3, 0.5, 2.0, 1e3, 1e300]     # incl. the far ends of the double range
 MEANS = [-4.0, 0.0, 1.0, 1e3]
 STDS = [1e-3, 0.3, 2.0]
-LIN_MEANS = [1e-4, 1.0, 50.0]
+LIN_MEANS = [1e-290, 1e-4, 1.0, 50.0]
 LIN_STDS = [100.0, 2.0]
 
 CLASSES = ['Uniform', 'LogUniform', 'Gaussian', 'LogGaussian']
@@ -436,6 +436,72 @@ def default_case(case):
     return r
 
 
+def userprior_case(case):
+    """A prior set for a parameter is the one the optimiser compiles, whatever the parameter's own mode and bounds are -
+    also when they could not give a default prior at all (log mode over bounds that include zero or negative values:
+    the reason a user supplies a prior there)."""
+    from taurex.optimizer.optimizer import Optimizer
+    from taurex.data.profiles.temperature import Isothermal, Guillot2010
+    from taurex.core.priors import PriorMode
+    from taurex.parameter.factory import create_prior
+    r = core.R(case)
+    fx.reset_caches()
+    iso, gui = Isothermal(T=1000.0), Guillot2010()
+    model, obs = _Holder([iso, gui]), _Holder([])
+    if case.get('on_obs'):
+        model, obs = _Holder([iso]), _Holder([gui])
+    opt = Optimizer('c08u', observed=None, model=model)
+    opt._observed = obs
+    for name in list(model.fittingParameters) + list(obs.fittingParameters):
+        opt.disable_fit(name)
+    target = 'alpha'
+    opt.enable_fit(target)
+    opt.enable_fit('T')
+    if case['mode'] is not None:
+        opt.set_mode(target, case['mode'])
+    if case['bounds'] is not None:
+        opt.set_boundary(target, list(case['bounds']))
+    kind, args = case['prior']
+    if case['via'] == 'text':
+        user = create_prior('%s(%s)' % (kind, ', '.join('%s=%r' % kv for kv in args)))
+    else:
+        user = klass(kind)(**dict((k_, list(v_) if isinstance(v_, (list, tuple)) else v_) for k_, v_ in args))
+    twin = klass(kind)(**dict((k_, list(v_) if isinstance(v_, (list, tuple)) else v_) for k_, v_ in args))
+    opt.set_prior(target, user)
+    tag = '%s/mode=%s/bounds=%s' % (kind, str(case['mode']).lower(), 'none' if case['bounds'] is None else
+                                     'with-zero' if min(case['bounds']) == 0 else 'negative' if min(case['bounds']) < 0
+                                     else 'positive')
+    for round_ in ('first-compile', 'recompile'):
+        try:
+            opt.compile_params()
+        except Exception as e:
+            r.check(False, 'user-prior-kept', 'userprior/compile-raised/%s/%s' % (type(e).__name__, tag), exc=repr(e),
+                    round=round_)
+            return r
+        names = [p_[0] for p_ in opt.fitting_parameters]
+        if not r.check(sorted(names) == ['T', target] and len(opt.fitting_priors) == 2, 'default-compiled',
+                       'userprior/compiled-set', names=names):
+            return r
+        pr = opt.fitting_priors[names.index(target)]
+        r.check(pr is user, 'user-prior-kept', 'userprior/not-the-prior-set/%s' % tag, got=type(pr).__name__, round=round_)
+        for u_ in (0.0, 0.25, 0.5, 1.0):
+            r.eq(float(pr.sample(u_)), float(twin.sample(u_)), 'user-prior-kept', 'userprior/sample/%s' % tag, rtol=0, u=u_)
+        is_log = pr.priorMode is not PriorMode.LINEAR
+        r.check(opt.fit_names[names.index(target)] == ('log_' + target if is_log else target), 'user-prior-kept',
+                'userprior/name/%s' % tag, got=opt.fit_names)
+        vec = [0.0, 0.0]
+        vec[names.index('T')] = 1234.0
+        x_ = float(twin.sample(0.25))
+        vec[names.index(target)] = x_
+        opt.update_model(vec)
+        r.eq(float(gui.fitting_parameters()[target][2]()), 10 ** x_ if is_log else x_, 'default-to-model',
+             'userprior/to-model/%s' % tag, rtol=1e-12)
+    r.observe(kind, case['mode'], case['bounds'])
+    r.nontrivial = True
+    return r
+
+
+
 # ------------------------------------------------------------------------------------------------
 # enumeration
 # ------------------------------------------------------------------------------------------------
@@ -555,6 +621,13 @@ def explore(ctx):
                                      'on_obs': True})
                         dflt.append({'param': param, 'other': other, 'mode': mode, 'bounds': b, 'on_obs': True})
     ctx.run_cases('default_case', dflt, phase='default')
+    up = [{'mode': md, 'bounds': b_, 'prior': pr_, 'via': via, 'on_obs': oo}
+          for md in (None, 'log', 'linear', 'LOG') for b_ in (None, [0.0, 1.0], [1.0, 0.0], [-1.0, 1.0], [0.1, 0.9])
+          for pr_ in (('LogUniform', (('bounds', (-3.0, 0.0)),)), ('Uniform', (('bounds', (0.2, 0.8)),)),
+                      ('LogUniform', (('lin_bounds', (1e-3, 1.0)),)), ('Gaussian', (('mean', 0.4), ('std', 0.1))),
+                      ('LogGaussian', (('mean', -1.0), ('std', 0.3))))
+          for via in ('direct', 'text') for oo in (False, True)]
+    ctx.run_cases('userprior_case', up, phase='user-prior')
 
     ctx.bounds.update(u_lattice=len(U), direct=len(direct), lin=len(lin), text=len(text), positional=len(pos),
                       unknown=len(unk), default=len(dflt),
